@@ -89,13 +89,13 @@ var ErrInjected = errors.New("injected fault")
 // (or returns its first parameter / Null when inner is nil) except at its
 // at-th invocation, where it returns an error or panics.
 type FnFault struct {
-	Kind  string // fn_error | fn_panic | fn_both | fn_reenter | ""
+	Kind string // fn_error | fn_panic | fn_both | fn_reenter | ""
 	// Reenter (fn_reenter): what the delegate does instead of computing - it calls back into the object that is calling it
 	Reenter func() (*variants.Variant, error)
-	At    int    // 1-based invocation index
-	Msg   int    // which failure text / error type (see FailureText)
-	Calls int
-	Fired bool
+	At      int // 1-based invocation index
+	Msg     int // which failure text / error type (see FailureText)
+	Calls   int
+	Fired   bool
 }
 
 type customError struct{ s string }
